@@ -55,7 +55,7 @@ theorem splitScheme_gemini (rest : Str) :
   unfold splitScheme gemColon
   have : findIdx (· = ':') (['g', 'e', 'm', 'i', 'n', 'i', ':'] ++ rest) = some 6 := by simp [findIdx]
   rw [this]
-  simp [schemeChar, lowerAscii, Char.isAlphanum, Char.isAlpha, Char.isDigit, Char.isUpper, Char.isLower]
+  simp [schemeOk, firstIsAsciiAlpha, schemeChar, lowerAscii, Char.isAlphanum, Char.isAlpha, Char.isDigit, Char.isUpper, Char.isLower]
 
 theorem splitNetloc_slash {nl rest : Str} (h1 : nl.all (fun c => !isDelim c) = true)
     (hr : rest = [] ∨ rest.head? = some '/') : (splitNetloc (['/', '/'] ++ nl ++ rest)).1 = nl := by
